@@ -42,7 +42,9 @@ Case key "via": "conductor" -- staged by Conductor.initialize and polled by
 Conductor.monitor_study (sleep stubbed); status.csv is read where the Conductor
 writes it.  Case key "real": true -- a REAL (non-dry) run against a scripted
 scheduler adapter (every job FINISHED one poll after submission, answers in the
-order queried); `polls` is then the sequence of SUBMITTED instance names; these
+order queried; with "faults": "hw" | "timeout" | "mixed" every instance's first
+job reports HWFAILURE / TIMEDOUT once, all jobs in flight together, and is
+re-queued / restarted); `polls` is then the sequence of SUBMITTED instance names; these
 cases are compared across processes only.  One process's root is reached through
 a symbolic link, another is spelled with ".." and "//".
 
@@ -119,14 +121,33 @@ class Sched:
     next_job = 1
     submitted = []       # instance names in submission order
     queries = []         # job ids as queried, poll by poll
+    job_name = {}        # job id -> instance name
+    faulted = set()      # instance names that already had their one fault
+    faults = None        # None | "hw" | "timeout" | "mixed"  (case key "faults")
+
+
+def fault_of(name):
+    """the ONE fault an instance's first job reports before it may finish
+    (a function of the name only -- never of the hash seed)"""
+    import zlib
+    if Sched.faults == "hw":
+        return "HWFAILURE"
+    if Sched.faults == "timeout":
+        return "TIMEDOUT"
+    if Sched.faults == "mixed":
+        return [None, "HWFAILURE", "TIMEDOUT"][zlib.crc32(name.encode("utf-8")) % 3]
+    return None
 
 
 def register_scripted():
     """A scheduler adapter registered through the plug-in registry: scripts are
     written by the local adapter's writer, every step is SCHEDULED, submit hands
-    out consecutive job ids, check_jobs reports every queried job FINISHED -- for
-    exactly the ids queried, in the order queried (so each job finishes one poll
-    after its submission)."""
+    out consecutive job ids, check_jobs answers for exactly the ids queried, in
+    the order queried (as the real adapters do): FINISHED (each job finishes one
+    poll after its submission) -- or, with the case key "faults", ONE
+    HWFAILURE (the step is re-queued) / TIMEDOUT (the step is restarted if it has
+    a restart command and budget, else it fails) per instance first, for ALL the
+    jobs in flight in that poll together."""
     from maestrowf.interfaces import ScriptAdapterFactory
     if "c11sched" in ScriptAdapterFactory.factories:
         return
@@ -149,13 +170,21 @@ def register_scripted():
             jid = str(Sched.next_job)
             Sched.next_job += 1
             Sched.submitted.append(str(step.real_name))
+            Sched.job_name[jid] = str(step.real_name)
             return SubmissionRecord(SubmissionCode.OK, 0, jid)
 
         def check_jobs(self, joblist):
             Sched.queries.append([str(j) for j in joblist])
             if not joblist:
                 return JobStatusCode.NOJOBS, {}
-            return JobStatusCode.OK, {j: State.FINISHED for j in joblist}
+            out = {}
+            for j in joblist:
+                name = Sched.job_name.get(str(j), "")
+                f = fault_of(name) if name not in Sched.faulted else None
+                if f:
+                    Sched.faulted.add(name)
+                out[j] = State[f] if f else State.FINISHED
+            return JobStatusCode.OK, out
 
         def cancel_jobs(self, joblist):
             return CancellationRecord(CancelCode.OK, 0)
@@ -228,6 +257,7 @@ def expand_once(case, root):
     scheduler); returns the serialisation (root replaced)."""
     ser = {"obs": None, "polls": [], "status": [], "scripts": [], "exc": ""}
     Sched.next_job, Sched.submitted, Sched.queries = 1, [], []
+    Sched.job_name, Sched.faulted, Sched.faults = {}, set(), case.get("faults")
     o, study, dag, cond, sdir = stage_flags(case, root)
     ser["obs"] = o
     if o.get("ok") and dag is not None:
@@ -247,7 +277,7 @@ def expand_once(case, root):
         ScriptAdapter.write_script = write_script
         cm, saved_sleep = None, None
         try:
-            cap = 2 * len(o["nodes"]) + 4
+            cap = 3 * len(o["nodes"]) + 6
             marks = [0]
             if cond is not None:
                 import maestrowf.conductor as cm
@@ -696,7 +726,7 @@ def cross_only(case):
 
 
 def case_key(case):
-    return json.dumps({k: case.get(k) for k in ("rlimit", "params", "steps", "hashws", "usetmp", "adapter", "via", "real")},
+    return json.dumps({k: case.get(k) for k in ("rlimit", "params", "steps", "hashws", "usetmp", "adapter", "via", "real", "faults")},
                       sort_keys=True, default=str)
 
 
@@ -724,6 +754,12 @@ def generate(rng, tier):
             c["via"] = "conductor"
         if c["stream"] != "sched" and rng.random() < 0.3:
             c["real"] = True
+            c["faults"] = rng.choice([None, "hw", "hw", "timeout", "timeout", "mixed", "mixed"])
+            if c["faults"] in ("timeout", "mixed") and rng.random() < 0.7:
+                c["rlimit"] = max(1, c["rlimit"])          # restarts are possible
+                for st in c["steps"]:
+                    if rng.random() < 0.7 and not st["run"].get("restart"):
+                        st["run"]["restart"] = "echo again"
     return cases + gen
 
 
@@ -823,7 +859,7 @@ def run(ck):
         hist["streams"][case["stream"]] = hist["streams"].get(case["stream"], 0) + 1
         fl = "hashws=%d,usetmp=%d,adapter=%s,via=%s,run=%s" % (
             bool(case.get("hashws")), bool(case.get("usetmp")), case.get("adapter") or "local",
-            case.get("via") or "direct", "real" if case.get("real") else "dry")
+            case.get("via") or "direct", ("real/" + str(case.get("faults"))) if case.get("real") else "dry")
         hist["flags"][fl] = hist["flags"].get(fl, 0) + 1
         if o.get("ok"):
             b = min(len(o["nodes"]) - 1, 16)
@@ -862,8 +898,9 @@ def run(ck):
                       "25%% of the generated cases are staged with hash_ws=True and 15%% with use_tmp=True; 35%% are staged and "
                       "polled by the Conductor (initialize + monitor_study, sleep stubbed; status.csv where the Conductor "
                       "writes it); 30%% are REAL runs against a scripted scheduler adapter registered in the plug-in registry "
-                      "(every step scheduled, every job reported FINISHED one poll after submission, answers in the order "
-                      "queried): the sequence of submitted instance names over all polls is compared across processes only; "
+                      "(every step scheduled, answers in the order queried; every job reported FINISHED one poll after "
+                      "submission, or -- case key faults = hw/timeout/mixed -- first ONE HWFAILURE (re-queue) / TIMEDOUT "
+                      "(restart) per instance, for all jobs in flight in that poll together): the sequence of submitted instance names over all polls is compared across processes only; "
                       "one root is reached through a symbolic link, one is spelled with '..' and '//'; the output roots "
                       "contain blanks, quote, plus, comma and non-ASCII characters and are replaced exactly as given; every "
                       "specification is staged and dry-run (local adapter, scripts and status.csv written) in %d fresh "
@@ -890,6 +927,8 @@ def search(ck):
             c["via"] = "conductor"
         if k % 4 == 1 and c["stream"] != "sched":
             c["real"] = True
+            c["faults"] = ["hw", "timeout", "mixed"][(k // 4) % 3]
+            c["rlimit"] = max(1, c["rlimit"])
     seeds, _ = pick_seeds(4)
     procs = processes_for(seeds)
     sers, problems = run_processes(cases, procs, "run-c11-search")
